@@ -281,6 +281,15 @@ func Mangle(r Rnd, method string, codec bool, structuralOnly bool, frame []byte)
 				return frame, "", false
 			}
 			ra.ResultOrException[1].Index = ra.ResultOrException[0].Index
+			if r.Chance(0.5) {
+				// the same action answered by exceptions first and a result last
+				first := ra.ResultOrException[0]
+				first.Result, first.Exception = nil, excPair(ExTooBusy, "busy")
+				if r.Chance(0.5) {
+					dup := &pb.ResultOrException{Index: first.Index, Exception: excPair(ExTooBusy, "busy again")}
+					ra.ResultOrException = append([]*pb.ResultOrException{dup}, ra.ResultOrException...)
+				}
+			}
 		case "multi-result-and-exception":
 			if roe == nil {
 				return frame, "", false
